@@ -10,6 +10,7 @@ import EzdxfVerif.Lemmas.Payload
 import EzdxfVerif.Lemmas.Envelope
 import EzdxfVerif.Lemmas.DocReload
 import EzdxfVerif.Lemmas.DocNames
+import EzdxfVerif.Props.C03
 import EzdxfVerif.Gen.Schemas
 import EzdxfVerif.Gen.PayloadTables
 
@@ -1780,6 +1781,95 @@ theorem mline_entity_roundtrip (m : Mapping) (A : List Tag) (ns : NS) (vs : List
 
 example : Gen.Schemas.c_SPLINE.plans.length > 0 ∧ Gen.Schemas.c_MESH.plans.length > 0 ∧ Gen.Schemas.c_MTEXT.plans.length > 0 ∧
     Gen.Schemas.c_LEADER.plans.length > 0 := by decide +kernel
+
+/-! ## 9. final round: MTEXT columns, LTYPE pattern, the binary file layer under the envelope -/
+
+/-- MTEXT columns in the embedded object of DXF R2018 (static and dynamic columns, any number of column heights): all
+    column data come back; the count of dynamic columns with automatic height is written as 0 and recomputed from the heights
+    (or from the widths: `recount`, a double computation, is a parameter); text direction, insert and reference width
+    are taken from the embedded object exactly when the MTEXT attribute is not set -/
+theorem mtext_columns_roundtrip (recount : Nat → Nat → Nat → Int) (hasDir hasIns hasW : Bool) (dir ins : P3) (w : Nat)
+    (c : MCols) :
+    loadCols recount hasDir hasIns hasW (exportCols dir ins w c) =
+      ⟨canonCols recount c, if hasDir then none else some dir, if hasIns then none else some ins,
+       if hasW then none else some w⟩ :=
+  cols_roundtrip' recount hasDir hasIns hasW dir ins w c
+
+/-- static columns and dynamic columns with manual height keep their explicit (non-zero) count: bit-exact -/
+theorem mtext_columns_exact (recount : Nat → Nat → Nat → Int) (c : MCols) (h1 : c.dynAuto = false) (h2 : c.count ≠ 0) :
+    canonCols recount c = c := by
+  have hb : (c.count == 0) = false := by simpa using h2
+  simp [canonCols, fixCount, h1, hb]
+
+/-- the second cycle: what came back is a fixed point when it has column heights (dynamic columns always have) or an
+    explicit count -/
+theorem mtext_columns_second_cycle (recount : Nat → Nat → Nat → Int) (c : MCols) (h : c.heights ≠ []) :
+    canonCols recount (canonCols recount c) = canonCols recount c := by
+  obtain ⟨ctype, count, autoH, revFlow, definedH, width, gutter, totalW, totalH, heights⟩ := c
+  simp only at h
+  obtain ⟨a, r, rfl⟩ := List.exists_cons_of_ne_nil h
+  have hl' : ((r.length : Int) + 1 = 0) = False := by simp only [eq_iff_iff, iff_false]; omega
+  cases hd : (ctype == 2 && autoH)
+  · by_cases hc : count = 0
+    · subst hc
+      simp [canonCols, fixCount, MCols.dynAuto, hd, hl']
+    · have hcb : (count == 0) = false := by simpa using hc
+      simp [canonCols, fixCount, MCols.dynAuto, hd, hcb]
+  · simp [canonCols, fixCount, MCols.dynAuto, hd, hl']
+
+#guard (loadCols (fun _ _ _ => 7) true true false (exportCols (1, 0, 0) (5, 6, 7) 9 ⟨2, 3, true, false, 4, 5, 6, 7, 8, [1, 2]⟩)).c
+  == ⟨2, 2, true, false, 4, 5, 6, 7, 8, [1, 2]⟩
+
+/-- LTYPE: the pattern tags (49, 74, 75, 340, 46, 50, 44, 45, 9 … of simple and complex line types) are what
+    `fast_load_dxfattribs` leaves over; for ANY mapping without entries for their group codes they come back verbatim, in
+    order, whatever the attribute tags in front (which are all consumed: `hAu`), and DXF R2000+ writes them back as stored -/
+theorem ltype_pattern_roundtrip (m : Mapping) (A P : List Tag) (ns : NS) (hA : A ≠ [])
+    (hP : ∀ t ∈ P, unmapped m t.code = true) (hAu : (fastLoad m A ns).2 = []) :
+    loadLtype m (A ++ exportLtypePattern P) ns = ((fastLoad m A ns).1, P) :=
+  ltype_pattern' m A P ns hA hP hAu
+
+/-- LTYPE in DXF R12 (`export_r12_dxf`): what is written is a fixed point of the writer (a second R12 cycle writes the same
+    tags), for ANY stored pattern tags; `sumAbs` (the pattern length of a damaged pattern) is a parameter -/
+theorem ltype_r12_second_cycle (sumAbs : List Tag → Nat) (P : List Tag) :
+    ltypeR12 sumAbs (ltypeR12 sumAbs P) = ltypeR12 sumAbs P :=
+  ltypeR12_idem sumAbs P
+
+/-- … and a simple line type pattern (length, n dash elements each followed by its type tag (74, 0)) is written to R12
+    with every dash element in order; the permitted loss are exactly the element type tags -/
+theorem ltype_r12_simple_pattern (sumAbs : List Tag → Nat) (n : Int) (L : Nat) (es : List Nat) :
+    ltypeR12 sumAbs ([tagI 72 65, tagI 73 n, tagD 40 L] ++ es.flatMap (fun e => [tagD 49 e, tagI 74 0])) =
+      [tagI 72 65, tagN 73 es.length, tagD 40 L] ++ es.map (tagD 49) :=
+  ltypeR12_simple sumAbs n L es
+
+/-- the LTYPE pattern group codes have no entry in the group code mapping of the registered LTYPE class -/
+theorem ltype_mapping_unmapped :
+    (fastMappings Gen.Schemas.c_LTYPE 2).all (fun m => [49, 74, 75, 340, 46, 50, 44, 45, 9].all (fun c => unmapped m c)) = true ∧
+    (fastMappings Gen.Schemas.c_LTYPE 2).length > 0 := by
+  decide +kernel
+
+/-- **entity_bytes_roundtrip**: the envelope theorem on top of C03's concrete binary tag codec instead of an abstract one.
+    `bt` is the typed tag list of the exported entity (`fromB` gives the text form the storage model works on); the binary
+    writer (`encAll`, both group code widths) produces bytes from which the binary loader (`decAll`) reads the same tags
+    (C03 `bin_file_roundtrip_all`), and `DXFEntity.load` of these returns the identical envelope -/
+theorem entity_bytes_roundtrip (alive : XTags.V → Bool) (env : Storage.Ent) (ok : Envelope.EnvOK alive env) (r12 : Bool)
+    (bt : List Codec.BTag) (fromB : Codec.BTag → XTags.Tag) (hwf : ∀ t ∈ bt, Props.C03.TagOK' t)
+    (t : List XTags.Tag) (hexp : Storage.exportEnt alive env = .ok t) (htxt : bt.map fromB = t) :
+    ∃ bytes, Codec.encAll r12 bt = .ok bytes ∧
+      ∀ fuel, bt.length < fuel → ∃ bt', Codec.decAll r12 fuel bytes = .ok bt' ∧ Storage.load (bt'.map fromB) = .ok env := by
+  obtain ⟨bytes, henc, hdec⟩ := Props.C03.bin_file_roundtrip_all r12 bt hwf
+  obtain ⟨t', h1, h2⟩ := Envelope.envelope_roundtrip' ok
+  rw [hexp] at h1
+  cases h1
+  exact ⟨bytes, henc, fun fuel hf => ⟨bt, hdec fuel hf, by rw [htxt]; exact h2⟩⟩
+
+/-- T-ast fingerprint of the functions modelled in the final round -/
+theorem payload_source_fingerprint_final :
+    -- (the 10 / 11 tags are written through `dxftag(10, …)`, which the extractor does not resolve)
+    Gen.PayloadTables.mtext_export_embedded = [101, 70, 40, 41, 42, 43, 71, 72, 44, 45, 73, 74, 46] ∧
+    Gen.PayloadTables.mtext_load_columns_embedded = [10, 11, 40, 41, 42, 43, 44, 45, 71, 72, 73, 74, 46] ∧
+    Gen.PayloadTables.ltype_export_r12 = [49, 72, 73, 40] := by
+  repeat' apply And.intro
+  all_goals decide
 
 end EzdxfVerif.Props.C01
 
